@@ -16,6 +16,7 @@ inconclusive (exit 2).  See DESIGN.md section 2.5.
 from __future__ import annotations
 
 import hashlib
+import contextlib
 import json
 import os
 import time
@@ -72,6 +73,37 @@ def jsonable(o, depth=0):
     if isinstance(o, complex):
         return {"re": o.real, "im": o.imag}
     return repr(o)
+
+
+@contextlib.contextmanager
+def mem_cap(extra_gb):
+    """Temporarily lower the address-space limit to (current size + extra_gb): a call known to be able to
+    explode in memory then fails fast with MemoryError (observed, recorded) instead of eating the machine."""
+    if not extra_gb:
+        yield
+        return
+    import resource
+
+    soft, hard = resource.getrlimit(resource.RLIMIT_AS)
+    try:
+        with open("/proc/self/statm") as f:
+            cur = int(f.read().split()[0]) * os.sysconf("SC_PAGE_SIZE")
+        cap = cur + int(extra_gb * 2**30)
+        if soft != resource.RLIM_INFINITY:
+            cap = min(cap, soft)
+        resource.setrlimit(resource.RLIMIT_AS, (cap, hard))
+    except Exception:  # noqa: BLE001
+        pass
+    try:
+        yield
+    finally:
+        import gc
+
+        gc.collect()
+        try:
+            resource.setrlimit(resource.RLIMIT_AS, (soft, hard))
+        except Exception:  # noqa: BLE001
+            pass
 
 
 class Ctx:
